@@ -419,10 +419,15 @@ func main() {
 	// addressed to either of them in every interleaving (a line may be open at a hand-over)
 	nestedN := nested(f, res, maxLen-2) + siblings(f, res)
 	res.Distribution["nested_writer_cases"] = nestedN
-	res.Evaluations = int64(len(cases)+len(oneReq)) + nestedN + histN
+	// writers made one after another over one sink object / over one another (seq.go); sinks that
+	// stop short with io.ErrShortWrite, io.EOF, a wrapped error in consecutive calls (fault.go)
+	seqN, seqNT := sequences(f, res, d)
+	faultN, faultNT := faults(f, res)
+	nontrivial += seqNT + faultNT
+	res.Evaluations = int64(len(cases)+len(oneReq)) + nestedN + histN + seqN + faultN
 	res.DistinctNontrivial = nontrivial
 	res.Exhaustive = true
-	res.Rule = fmt.Sprintf("complete enumeration: texts of <= %d symbols over {a, LF, e-acute(2 bytes)} x prefixes {>, >>, e-acute, two with a line feed; and, on texts of <= 3 symbols, 21 prefixes of characters special to regexp templates / fmt / regexps / escapes (dollar templates, backslash escapes, percent verbs, regexp metacharacters, NUL, tab, CR, U+2028)} x all splittings of the bytes into Write calls (plus empty Writes) x (no failure | the underlying writer stopping after k bytes of any one Write, k = 0..len handed down, k = len meaning full length reported together with an error); in these cases comparison stops at the first failing Write. Histories that go on after a short write (the sink works again): every short write of the enumeration on texts of <= %d symbols (<= %d under the special prefixes) continued by the caller resuming with the unwritten remainder and the rest of the text, or skipping the remainder (at the end of the text: one more letter / line feed); on texts of <= %d symbols (main prefixes) the resumed Write cut short again at every offset and resumed again; plus seeded random histories (texts of 3-26 symbols, chunks of 1-6 bytes, a sink failing at 1-4 scripted absolute byte offsets, resume or skip after each failure); in these the real writer is compared with the model AND with the specification of histories (accepted bytes rendered as one text, truthful counts, nothing asked after a cut inside a prefix). distinct_nontrivial = distinct cases with a line feed in the text and either more than one Write or a short write (histories: a short write followed by a further Write)", maxLen, histSym, histSymSpecial, histSym2)
+	res.Rule = fmt.Sprintf("complete enumeration: texts of <= %d symbols over {a, LF, e-acute(2 bytes)} x prefixes {>, >>, e-acute, two with a line feed; and, on texts of <= 3 symbols, 21 prefixes of characters special to regexp templates / fmt / regexps / escapes (dollar templates, backslash escapes, percent verbs, regexp metacharacters, NUL, tab, CR, U+2028)} x all splittings of the bytes into Write calls (plus empty Writes) x (no failure | the underlying writer stopping after k bytes of any one Write, k = 0..len handed down, k = len meaning full length reported together with an error); in these cases comparison stops at the first failing Write. Histories that go on after a short write (the sink works again): every short write of the enumeration on texts of <= %d symbols (<= %d under the special prefixes) continued by the caller resuming with the unwritten remainder and the rest of the text, or skipping the remainder (at the end of the text: one more letter / line feed); on texts of <= %d symbols (main prefixes) the resumed Write cut short again at every offset and resumed again; plus seeded random histories (texts of 3-26 symbols, chunks of 1-6 bytes, a sink failing at 1-4 scripted absolute byte offsets, resume or skip after each failure); in these the real writer is compared with the model AND with the specification of histories (accepted bytes rendered as one text, truthful counts, nothing asked after a cut inside a prefix). distinct_nontrivial = distinct cases with a line feed in the text and either more than one Write or a short write (histories: a short write followed by a further Write). Writers made one after another over ONE sink object and over one another (2-3 writers exhaustively over texts of <= 2 symbols in every chunking, every choice of what each writer is made over; random programs of 2-7 writers): every writer must deliver String(prefix, its own text) from a fresh line state, and every older writer in the chain the rendering of all it was offered (counted: programs in which a writer is made over an object whose previous writer left a line open). Sinks stopping short with io.ErrShortWrite / io.EOF / a wrapped io.ErrShortWrite in 1-3 consecutive calls at every offset (texts of <= 3 symbols, every chunking, the caller resuming), step/room sinks on single Writes of several lines and on random texts: the realised history (bytes the sink took during each Write over ALL calls made to it) is judged by the specification of histories and the model (counted: realised histories with a line feed and at least two failed Writes)", maxLen, histSym, histSymSpecial, histSym2)
 	res.Distribution["all_success_cases"] = full
 	res.Distribution["short_write_cases"] = short
 	res.Distribution["oneshot_cases"] = len(oneReq)
@@ -668,6 +673,26 @@ func replay(f *lib.Flags) {
 		lib.Fatal("%v", err)
 	}
 	defer d.Close()
+	var sq struct {
+		Seq *sprog `json:"seq"`
+	}
+	if json.Unmarshal(p.Disagreement.Replay, &sq) == nil && sq.Seq != nil {
+		if !replaySeq(d, *sq.Seq) {
+			d.Close()
+			os.Exit(1)
+		}
+		return
+	}
+	var fl struct {
+		Fault *fcase `json:"fault"`
+	}
+	if json.Unmarshal(p.Disagreement.Replay, &fl) == nil && fl.Fault != nil {
+		if !replayFault(d, *fl.Fault) {
+			d.Close()
+			os.Exit(1)
+		}
+		return
+	}
 	var nst struct {
 		Nested string `json:"nested"`
 	}
